@@ -13,11 +13,11 @@ RULE = ("generated tables rendered per source format (csv-raw/ob-csv through the
         "through parse_namespace.  non-trivial = line with >= 2 fields containing an empty cell, a delimiter/quote, edge white "
         "space or non-ASCII; stream with accepted AND rejected lines; map with a re-declared id or an f32 type.  "
         "distinct = distinct canonical inputs")
-THEOREMS = ["C16_tsv", "C16_tsv_any_terminator", "C16_tsv_physical_lines", "C16_tsv_prefix_refuted", "C16_tsv_prefix_refuted_blanks",
-            "C16_csv", "C16_csv_physical_lines", "C16_csv_linebreak_hypothesis_needed", "C16_csv_naive_refuted",
-            "C16_vw", "C16_vw_present", "C16_vw_absent",
-            "C16_reject_whole", "C16_accepted_rows_are_the_matching_rows", "C16_stream_csv", "C16_stream_tsv",
-            "C16_namespace", "C16_namespace_line", "C16_namespace_underscore_quirk"]
+THEOREMS = ["C16_generic_dispatch", "C16_tsv", "C16_tsv_any_terminator", "C16_tsv_physical_lines", "C16_tsv_prefix_refuted",
+            "C16_tsv_prefix_refuted_blanks", "C16_csv", "C16_csv_any_terminator", "C16_csv_physical_lines",
+            "C16_csv_linebreak_hypothesis_needed", "C16_csv_naive_refuted", "C16_vw", "C16_vw_present", "C16_vw_absent",
+            "C16_vw_never_rejected", "C16_reject_whole", "C16_accepted_rows_are_the_matching_rows", "C16_stream_csv", "C16_stream_tsv",
+            "C16_namespace", "C16_namespace_line", "C16_namespace_underscore_quirk", "C16_namespace_other_counts", "C16_examples"]
 MODEL_VO = ["IO/Str.vo", "IO/Csv.vo", "IO/Tsv.vo", "IO/Namespace.vo", "IO/Vw.vo", "IO/Accept.vo"]
 HEADER = ("From Coq Require Import List NArith.\nFrom Outrank Require Import IO.Str IO.Csv IO.Tsv IO.Namespace IO.Vw IO.Accept.\n"
           "Import ListNotations.\nOpen Scope N_scope.")
